@@ -44,6 +44,8 @@ Apply(s0, e) ==
     [] e.a = "zip"      -> LET s1 == ApiZip(s, e["in"][1], e["in"][2]) IN ApiMap(s1, "id", s1.n, <<>>)
     [] e.a = "dependon" -> ApiDependOn(s, e["in"][1], e["in"][2])
     [] e.a = "bind"     -> ApiBind(s, e["in"], e.recipe)
+    [] e.a = "xjoin"    -> ApiXJoin(s, e["in"])
+    [] e.a = "xsum"     -> ApiXSum(s, e.sel, e.ins)
     [] e.a = "cutoff"   -> ApiSetCutoff(s, e.n, [c |-> e.c])
     [] e.a = "write"    -> VarWrite(s, e.n, e.op, e.x)
     [] e.a = "observe"  -> ApiObserve(s, e.n)
@@ -75,7 +77,8 @@ SortedInvOf(inv) ==
 JudgeReads(post, obs) ==
   {LET r == obs.reads[o]
        w == RefRead(post, o)
-   IN Viol(IF r[1] = "ok" /\ w[1] = "ok" THEN "C01"
+   IN Viol(IF \E m \in ConeOf(post, {post.onode[o]}, {}) : post.def[m].k = "expert" THEN "C14"
+           ELSE IF r[1] = "ok" /\ w[1] = "ok" THEN "C01"
            ELSE IF r[2] = "ObservingInvalid" \/ w[2] = "ObservingInvalid" THEN "C03"
            ELSE "C10",
            <<"observer", o, "reads", r, "expected", w>>) :
